@@ -7,67 +7,105 @@ Everything is stated over the skeleton `St.sk` (see `ChanWfSk`).
 -/
 namespace Cares.Chan
 
-/-- the key is linked into the qid table (`queries_by_qid`): the query can still be reached by the library,
+/-! ### projections of the skeleton the groups of the invariant read -/
+
+def Sk.qK (a : Sk) : List Nat := a.qs.map (·.key)
+def Sk.qKQ (a : Sk) : List (Nat × Nat) := a.qs.map fun e => (e.key, e.qid)
+def Sk.qKC (a : Sk) : List (Nat × Option Nat) := a.qs.map fun e => (e.key, e.conn)
+def Sk.qKO (a : Sk) : List (Nat × Owner) := a.qs.map fun e => (e.key, e.owner)
+/-- keys linked into the qid table (`queries_by_qid`): these queries can still be reached by the library,
     hence can still get a completion callback -/
-def Sk.Idx (a : Sk) (k : Nat) : Prop := ∃ p ∈ a.byQid, p.2 = k
+def Sk.idx (a : Sk) : List Nat := a.byQid.map (·.2)
+def Sk.cFQ (a : Sk) : List (Nat × List Nat) := a.conns.map fun c => (c.fd, c.queries)
+def Sk.cF4 (a : Sk) : List (Nat × Bool × Nat × Bool) := a.conns.map fun c => (c.fd, c.unlinked, c.srv, c.tcp)
+def Sk.cFUQ (a : Sk) : List (Nat × Bool × List Nat) := a.conns.map fun c => (c.fd, c.unlinked, c.queries)
+
+/-- queries: keys are distinct and below the allocation counter -/
+structure WfQP (qK : List Nat) (nextKey : Nat) : Prop where
+  nodup : qK.Nodup
+  lt : ∀ k ∈ qK, k < nextKey
+
+/-- the qid table refers to live queries; `all` and the lists being walked refer to linked queries -/
+structure WfIP (qKQ byQid : List (Nat × Nat)) (all : List Nat) (lc : List (List Nat)) : Prop where
+  qidLive : ∀ p ∈ byQid, (p.2, p.1) ∈ qKQ
+  allNodup : all.Nodup
+  allIdx : ∀ k ∈ all, k ∈ byQid.map (·.2)
+  lcOk : ∀ l ∈ lc, l.Nodup ∧ ∀ k ∈ l, k ∈ byQid.map (·.2)
+
+/-- the by-timeout index (and the keys waiting to enter it) refer to linked queries that have a connection -/
+structure WfTP (qKC : List (Nat × Option Nat)) (idx bt po : List Nat) : Prop where
+  btNodup : bt.Nodup
+  btOk : ∀ k ∈ bt, k ∈ idx ∧ ∃ fd, (k, some fd) ∈ qKC
+  poNodup : po.Nodup
+  poOk : ∀ k ∈ po, k ∈ idx ∧ (∃ fd, (k, some fd) ∈ qKC) ∧ k ∉ bt
+
+/-- connections: descriptors distinct, below the counter, backed by a virtual socket; a connection's list
+    holds linked queries that point back to it; a query's connection exists and lists it.
+    `hole = some k`: query `k` has just left its connection's list and is about to be requeued or ended
+    (the transient state inside `process_answer`). -/
+structure WfCP (qKC : List (Nat × Option Nat)) (idx : List Nat) (cFQ : List (Nat × List Nat)) (nextFd : Nat)
+    (socks : List Nat) (hole : Option Nat) : Prop where
+  nodup : (cFQ.map (·.1)).Nodup
+  lt : ∀ c ∈ cFQ, c.1 < nextFd
+  sock : ∀ c ∈ cFQ, c.1 ∈ socks
+  qNodup : ∀ c ∈ cFQ, c.2.Nodup
+  cq : ∀ c ∈ cFQ, ∀ k ∈ c.2, k ∈ idx ∧ (k, some c.1) ∈ qKC
+  qc : ∀ p ∈ qKC, ∀ fd, p.2 = some fd → ∃ c ∈ cFQ, c.1 = fd ∧ (p.1 ∈ c.2 ∨ hole = some p.1)
+
+/-- servers: ids distinct; a server's connection list / TCP connection are live, linked connections of it -/
+structure WfSP (servers : List SSk) (cF4 : List (Nat × Bool × Nat × Bool)) : Prop where
+  nodup : (servers.map (·.id)).Nodup
+  connsNodup : ∀ v ∈ servers, v.conns.Nodup
+  conns : ∀ v ∈ servers, ∀ fd ∈ v.conns, ∃ t, (fd, false, v.id, t) ∈ cF4
+  tcp : ∀ v ∈ servers, ∀ fd, v.tcpConn = some fd → (fd, false, v.id, true) ∈ cF4
+
+structure WfKP (cl : List KSk) (nextClient : Nat) : Prop where
+  nodup : (cl.map (·.id)).Nodup
+  lt : ∀ c ∈ cl, c.id < nextClient
 
 /-- the compound request `id` has no sub-request that could still complete -/
-def Sk.NoSub (a : Sk) (id : Nat) : Prop := ∀ e ∈ a.qs, a.Idx e.key → e.owner ≠ .client id
+def NoSubP (qKO : List (Nat × Owner)) (idx : List Nat) (id : Nat) : Prop :=
+  ∀ p ∈ qKO, p.1 ∈ idx → p.2 ≠ .client id
 
-/-- the index / ownership / token invariant.  `hole = some k`: query `k` has just left its connection's list
-    and is about to be requeued or ended (the transient state inside `process_answer`). -/
+/-- token accounting: callbacks made / still owed are duplicate-free and disjoint; every linked query owned by
+    the application has its token pending and is the only holder of it; every linked sub-request of a
+    compound request has a live compound request whose token is pending, and is its only sub-request -/
+structure WfTokP (qKO : List (Nat × Owner)) (idx : List Nat) (cl : List KSk) (pend done : List Nat)
+    (rs : Nat) : Prop where
+  pN : pend.Nodup
+  dN : done.Nodup
+  disj : ∀ t ∈ pend, t ∉ done
+  pB : ∀ t ∈ pend, t < 10000 + rs
+  dB : ∀ t ∈ done, t < 10000 + rs
+  tQ : ∀ p ∈ qKO, p.1 ∈ idx → ∀ tok, p.2 = .user tok →
+    tok ∈ pend ∧ (∀ p' ∈ qKO, p'.1 ∈ idx → p'.2 = .user tok → p'.1 = p.1) ∧ (∀ c ∈ cl, c.tok ≠ tok)
+  tC : ∀ p ∈ qKO, p.1 ∈ idx → ∀ id, p.2 = .client id →
+    (∃ c ∈ cl, c.id = id ∧ c.tok ∈ pend) ∧ (∀ p' ∈ qKO, p'.1 ∈ idx → p'.2 = .client id → p'.1 = p.1)
+  tK : ∀ c ∈ cl, c.tok ∈ pend ∨ c.tok ∈ done
+  tKU : ∀ c ∈ cl, ∀ c' ∈ cl, c.tok = c'.tok → c.tok ∈ pend → c.id = c'.id
+
+/-- the index / ownership / token invariant -/
 structure WfS (a : Sk) (hole : Option Nat) : Prop where
-  /- queries -/
-  qNodup : (a.qs.map (·.key)).Nodup
-  qLt : ∀ e ∈ a.qs, e.key < a.nextKey
-  /- the four indexes refer to live, linked queries -/
-  byQid : ∀ p ∈ a.byQid, ∃ e ∈ a.qs, e.key = p.2 ∧ e.qid = p.1
-  allNodup : a.all.Nodup
-  all : ∀ k ∈ a.all, a.Idx k
-  lc : ∀ l ∈ a.listCopy, l.Nodup ∧ ∀ k ∈ l, a.Idx k
-  btNodup : a.byTimeout.Nodup
-  bt : ∀ k ∈ a.byTimeout, a.Idx k ∧ ∃ e ∈ a.qs, e.key = k ∧ e.conn ≠ none
-  poNodup : a.pendingOrder.Nodup
-  po : ∀ k ∈ a.pendingOrder, a.Idx k ∧ (∃ e ∈ a.qs, e.key = k ∧ e.conn ≠ none) ∧ k ∉ a.byTimeout
-  /- connections -/
-  cNodup : (a.conns.map (·.fd)).Nodup
-  cLt : ∀ c ∈ a.conns, c.fd < a.nextFd
-  cSock : ∀ c ∈ a.conns, c.fd ∈ a.socks
-  cqNodup : ∀ c ∈ a.conns, c.queries.Nodup
-  cq : ∀ c ∈ a.conns, ∀ k ∈ c.queries, a.Idx k ∧ ∃ e ∈ a.qs, e.key = k ∧ e.conn = some c.fd
-  qc : ∀ e ∈ a.qs, ∀ fd, e.conn = some fd → ∃ c ∈ a.conns, c.fd = fd ∧ (e.key ∈ c.queries ∨ hole = some e.key)
-  /- servers -/
-  sNodup : (a.servers.map (·.id)).Nodup
-  sConnsNodup : ∀ v ∈ a.servers, v.conns.Nodup
-  sConns : ∀ v ∈ a.servers, ∀ fd ∈ v.conns, ∃ c ∈ a.conns, c.fd = fd ∧ c.unlinked = false ∧ c.srv = v.id
-  sTcp : ∀ v ∈ a.servers, ∀ fd, v.tcpConn = some fd →
-    ∃ c ∈ a.conns, c.fd = fd ∧ c.unlinked = false ∧ c.srv = v.id ∧ c.tcp = true
-  /- compound requests -/
-  kNodup : (a.clients.map (·.id)).Nodup
-  kLt : ∀ c ∈ a.clients, c.id < a.nextClient
-  /- token accounting -/
-  tPN : a.pendingToks.Nodup
-  tDN : a.doneToks.Nodup
-  tDisj : ∀ t ∈ a.pendingToks, t ∉ a.doneToks
-  tPB : ∀ t ∈ a.pendingToks, t < 10000 + a.reactSeq
-  tDB : ∀ t ∈ a.doneToks, t < 10000 + a.reactSeq
-  tQ : ∀ e ∈ a.qs, a.Idx e.key → ∀ tok, e.owner = .user tok →
-    tok ∈ a.pendingToks ∧ (∀ e' ∈ a.qs, a.Idx e'.key → e'.owner = .user tok → e'.key = e.key) ∧
-    (∀ c ∈ a.clients, c.tok ≠ tok)
-  tC : ∀ e ∈ a.qs, a.Idx e.key → ∀ id, e.owner = .client id →
-    (∃ c ∈ a.clients, c.id = id ∧ c.tok ∈ a.pendingToks) ∧
-    (∀ e' ∈ a.qs, a.Idx e'.key → e'.owner = .client id → e'.key = e.key)
-  tK : ∀ c ∈ a.clients, c.tok ∈ a.pendingToks ∨ c.tok ∈ a.doneToks
-  tKU : ∀ c ∈ a.clients, ∀ c' ∈ a.clients, c.tok = c'.tok → c.tok ∈ a.pendingToks → c.id = c'.id
+  q : WfQP a.qK a.nextKey
+  i : WfIP a.qKQ a.byQid a.all a.listCopy
+  t : WfTP a.qKC a.idx a.byTimeout a.pendingOrder
+  c : WfCP a.qKC a.idx a.cFQ a.nextFd a.socks hole
+  s : WfSP a.servers a.cF4
+  k : WfKP a.clients a.nextClient
+  tok : WfTokP a.qKO a.idx a.clients a.pendingToks a.doneToks a.reactSeq
 
 def Wf (s : St) : Prop := WfS s.sk none
 
+def Sk.Idx (a : Sk) (k : Nat) : Prop := k ∈ a.idx
+def Sk.NoSub (a : Sk) (id : Nat) : Prop := NoSubP a.qKO a.idx id
+
 /-- the caller holds a completion callback that has not been invoked and that no live object will invoke -/
-def Sk.OwnerFree (a : Sk) : Owner → Prop
+def OwnerFreeP (qKO : List (Nat × Owner)) (idx : List Nat) (cl : List KSk) (pend : List Nat) : Owner → Prop
   | .probe => True
-  | .user tok => tok ∈ a.pendingToks ∧ (∀ e ∈ a.qs, a.Idx e.key → e.owner ≠ .user tok) ∧
-      (∀ c ∈ a.clients, c.tok ≠ tok)
-  | .client id => (∃ c ∈ a.clients, c.id = id ∧ c.tok ∈ a.pendingToks) ∧ a.NoSub id
+  | .user tok => tok ∈ pend ∧ (∀ p ∈ qKO, p.1 ∈ idx → p.2 ≠ .user tok) ∧ (∀ c ∈ cl, c.tok ≠ tok)
+  | .client id => (∃ c ∈ cl, c.id = id ∧ c.tok ∈ pend) ∧ NoSubP qKO idx id
+
+def Sk.OwnerFree (a : Sk) (o : Owner) : Prop := OwnerFreeP a.qKO a.idx a.clients a.pendingToks o
 
 /-- what the pure client logic may ask for: nothing, one sub-request, or completion -/
 def ActsOk : List ClientAct → Prop
@@ -76,7 +114,8 @@ def ActsOk : List ClientAct → Prop
   | .finish _ _ _ :: _ => True
   | _ => False
 
-def Sk.hasConn (a : Sk) (fd : Nat) (unl : Bool) : Prop := ∃ c ∈ a.conns, c.fd = fd ∧ c.unlinked = unl
+def Sk.hasConn (a : Sk) (fd : Nat) (unl : Bool) : Prop := ∃ q, (fd, unl, q) ∈ a.cFUQ
+def Sk.liveConn (a : Sk) (fd : Nat) : Prop := fd ∈ a.cFQ.map (·.1)
 
 /-- precondition of each procedure (what its callers establish) -/
 def Pre (s : St) : Call → Prop
@@ -86,14 +125,14 @@ def Pre (s : St) : Call → Prop
   | .endQuery _ key _ _ => WfS s.sk (some key) ∧ s.sk.Idx key
   | .callback owner _ _ _ _ => Wf s ∧ s.sk.OwnerFree owner
   | .userCb tok _ _ _ _ => Wf s ∧ tok ∈ s.sk.pendingToks ∧
-      (∀ e ∈ s.sk.qs, s.sk.Idx e.key → e.owner ≠ .user tok) ∧
+      (∀ p ∈ s.sk.qKO, p.1 ∈ s.sk.idx → p.2 ≠ .user tok) ∧
       (∀ c ∈ s.sk.clients, c.tok = tok → s.sk.NoSub c.id)
   | .closeConn fd _ => Wf s ∧ s.sk.hasConn fd false
   | .connError fd _ _ => Wf s ∧ s.sk.hasConn fd false
   | .closeLoop fd _ => Wf s ∧ s.sk.hasConn fd true
-  | .flush fd => Wf s ∧ ∃ c ∈ s.sk.conns, c.fd = fd
-  | .readAnswers fd => Wf s ∧ ∃ c ∈ s.sk.conns, c.fd = fd
-  | .processAnswer fd _ => Wf s ∧ ∃ c ∈ s.sk.conns, c.fd = fd
+  | .flush fd => Wf s ∧ s.sk.liveConn fd
+  | .readAnswers fd => Wf s ∧ s.sk.liveConn fd
+  | .processAnswer fd _ => Wf s ∧ s.sk.liveConn fd
   | .clientStart _ tok _ _ => Wf s ∧ s.sk.OwnerFree (.user tok)
   | .runActs id acts => Wf s ∧ ActsOk acts ∧ (acts ≠ [] → s.sk.OwnerFree (.client id))
   | _ => Wf s
@@ -114,8 +153,7 @@ structure StepS (xf xi : Option Nat) (a a' : Sk) : Prop where
   faults : a'.faults = a.faults
   kMono : a.nextClient ≤ a'.nextClient
   /-- a connection that is being closed by an outer frame stays in the store, and nothing is added to it -/
-  unl : ∀ c ∈ a.conns, c.unlinked = true → some c.fd ≠ xf →
-    ∃ c' ∈ a'.conns, c'.fd = c.fd ∧ c'.unlinked = true ∧ ∀ k ∈ c'.queries, k ∈ c.queries
+  unl : ∀ fd q, (fd, true, q) ∈ a.cFUQ → some fd ≠ xf → ∃ q', (fd, true, q') ∈ a'.cFUQ ∧ ∀ k ∈ q', k ∈ q
   /-- a compound request without sub-requests gets none (unless the procedure acts for it) -/
   orphan : ∀ id, id < a.nextClient → some id ≠ xi → a.NoSub id → a'.NoSub id
 
@@ -123,7 +161,7 @@ structure StepS (xf xi : Option Nat) (a a' : Sk) : Prop where
 def Post (s : St) (r : St × Ret) : Call → Prop
   | .flush _ => r.1.sk = s.sk
   | .requeue key _ _ _ _ =>
-      ∀ c ∈ s.sk.conns, c.unlinked = true → ∀ c' ∈ r.1.sk.conns, c'.fd = c.fd → key ∉ c'.queries
+      ∀ fd q, (fd, true, q) ∈ s.sk.cFUQ → ∀ q', (fd, q') ∈ r.1.sk.cFQ → key ∉ q'
   | _ => True
 
 structure Good (c : Call) (s : St) (r : St × Ret) : Prop where
